@@ -517,3 +517,149 @@ func init() {
 		isoFamily(c, n)
 	}})
 }
+
+// ---- M9: nine fields of nine distinct named types over all layout classes -----
+
+type M9a bool
+type M9b int16
+type M9c [3]byte
+type M9d int32
+type M9e *int
+type M9f string
+type M9g []byte
+type M9h any
+type M9i float64
+
+type M9 struct {
+	A M9a
+	B M9b `hseq:"bee"`
+	c M9c
+	D M9d
+	E M9e
+	F M9f `hseq:"eff,omitempty"`
+	g M9g
+	H M9h
+	I M9i
+}
+
+func fillM9(p *M9, k int) {
+	*p = M9{A: k%2 == 1, B: M9b(k + 1), c: M9c{byte(k), 2, 3}, D: M9d(k) << 20, E: []*int{nil, &IntA, &IntB}[k], F: M9f([]string{"", "f", "a longer one"}[k]), g: [][]byte{nil, {1}, {2, 3}}[k], H: []any{nil, 1, "s"}[k], I: M9i(k) + 0.5}
+}
+
+func init() {
+	Register(Shape{Name: "X-m9", Family: "nine", Source: "type M9 struct { A M9a(bool); B M9b(int16) `hseq:\"bee\"`; c M9c([3]byte); D M9d(int32); E M9e(*int); F M9f(string) `hseq:\"eff,omitempty\"`; g M9g([]byte); H M9h(any); I M9i(float64) }", Run: func(c *Ctx) {
+		va, vb, vc := []M9a{false, true, false}, []M9b{1, -2, 30000}, []M9c{{1, 2, 3}, {}, {255, 254, 253}}
+		vd, ve, vf := []M9d{1, -2, 1 << 30}, []M9e{nil, &IntA, &IntB}, []M9f{"", "a", "a longer string value"}
+		vg, vh, vi := []M9g{nil, {1}, {1, 2, 3}}, []M9h{nil, 1, "s"}, []M9i{1.5, -2, 3e300}
+		sa, sb, sc := func(p *M9) *M9a { return &p.A }, func(p *M9) *M9b { return &p.B }, func(p *M9) *M9c { return &p.c }
+		sd, se, sf := func(p *M9) *M9d { return &p.D }, func(p *M9) *M9e { return &p.E }, func(p *M9) *M9f { return &p.F }
+		sg, sh, si := func(p *M9) *M9g { return &p.g }, func(p *M9) *M9h { return &p.H }, func(p *M9) *M9i { return &p.I }
+		if c.Is("C01") {
+			Derive(c, "ForProduct9[M9, ...]() by type", func() {
+				a, b, cc, d, e, f, g, h, i := optics.ForProduct9[M9, M9a, M9b, M9c, M9d, M9e, M9f, M9g, M9h, M9i]()
+				Lens(c, "#0 of ForProduct9 by type", a, sa, va, fillM9)
+				Lens(c, "#1 of ForProduct9 by type", b, sb, vb, fillM9)
+				Lens(c, "#2 of ForProduct9 by type", cc, sc, vc, fillM9)
+				Lens(c, "#3 of ForProduct9 by type", d, sd, vd, fillM9)
+				Lens(c, "#4 of ForProduct9 by type", e, se, ve, fillM9)
+				Lens(c, "#5 of ForProduct9 by type", f, sf, vf, fillM9)
+				Lens(c, "#6 of ForProduct9 by type", g, sg, vg, fillM9)
+				Lens(c, "#7 of ForProduct9 by type", h, sh, vh, fillM9)
+				Lens(c, "#8 of ForProduct9 by type", i, si, vi, fillM9)
+			})
+			Derive(c, "ForProduct9[M9, reversed...](names) by name", func() {
+				i, h, g, f, e, d, cc, b, a := optics.ForProduct9[M9, M9i, M9h, M9g, M9f, M9e, M9d, M9c, M9b, M9a]("I", "H", "g", "eff", "E", "D", "c", "bee", "A")
+				Lens(c, "#8 of reversed ForProduct9 by name", a, sa, va, fillM9)
+				Lens(c, "#7 of reversed ForProduct9 by name", b, sb, vb, fillM9)
+				Lens(c, "#6 of reversed ForProduct9 by name", cc, sc, vc, fillM9)
+				Lens(c, "#5 of reversed ForProduct9 by name", d, sd, vd, fillM9)
+				Lens(c, "#4 of reversed ForProduct9 by name", e, se, ve, fillM9)
+				Lens(c, "#3 of reversed ForProduct9 by name", f, sf, vf, fillM9)
+				Lens(c, "#2 of reversed ForProduct9 by name", g, sg, vg, fillM9)
+				Lens(c, "#1 of reversed ForProduct9 by name", h, sh, vh, fillM9)
+				Lens(c, "#0 of reversed ForProduct9 by name", i, si, vi, fillM9)
+			})
+			Derive(c, "ForSpectrum9[M9, rotated...]() by type", func() {
+				d, e, f, g, h, i, a, b, cc := optics.ForSpectrum9[M9, M9d, M9e, M9f, M9g, M9h, M9i, M9a, M9b, M9c]()
+				Reflector(c, "#6 of rotated ForSpectrum9", a, sa, va, fillM9)
+				Reflector(c, "#7 of rotated ForSpectrum9", b, sb, vb, fillM9)
+				Reflector(c, "#8 of rotated ForSpectrum9", cc, sc, vc, fillM9)
+				Reflector(c, "#0 of rotated ForSpectrum9", d, sd, vd, fillM9)
+				Reflector(c, "#1 of rotated ForSpectrum9", e, se, ve, fillM9)
+				Reflector(c, "#2 of rotated ForSpectrum9", f, sf, vf, fillM9)
+				Reflector(c, "#3 of rotated ForSpectrum9", g, sg, vg, fillM9)
+				Reflector(c, "#4 of rotated ForSpectrum9", h, sh, vh, fillM9)
+				Reflector(c, "#5 of rotated ForSpectrum9", i, si, vi, fillM9)
+			})
+			// the arities in between, by type, on interleaved selections
+			Derive(c, "ForProduct4..8 on M9", func() {
+				a4, c4, e4, g4 := optics.ForProduct4[M9, M9a, M9c, M9e, M9g]()
+				Lens(c, "#0 of ForProduct4[a,c,e,g]", a4, sa, va, fillM9)
+				Lens(c, "#1 of ForProduct4[a,c,e,g]", c4, sc, vc, fillM9)
+				Lens(c, "#2 of ForProduct4[a,c,e,g]", e4, se, ve, fillM9)
+				Lens(c, "#3 of ForProduct4[a,c,e,g]", g4, sg, vg, fillM9)
+				i5, b5, h5, d5, f5 := optics.ForProduct5[M9, M9i, M9b, M9h, M9d, M9f]("I", "bee", "H", "D", "eff")
+				Lens(c, "#0 of ForProduct5[i,b,h,d,f] by name", i5, si, vi, fillM9)
+				Lens(c, "#1 of ForProduct5[i,b,h,d,f] by name", b5, sb, vb, fillM9)
+				Lens(c, "#2 of ForProduct5[i,b,h,d,f] by name", h5, sh, vh, fillM9)
+				Lens(c, "#3 of ForProduct5[i,b,h,d,f] by name", d5, sd, vd, fillM9)
+				Lens(c, "#4 of ForProduct5[i,b,h,d,f] by name", f5, sf, vf, fillM9)
+				b6, a6, d6, c6, f6, e6 := optics.ForProduct6[M9, M9b, M9a, M9d, M9c, M9f, M9e]()
+				Lens(c, "#0 of ForProduct6[b,a,d,c,f,e]", b6, sb, vb, fillM9)
+				Lens(c, "#1 of ForProduct6[b,a,d,c,f,e]", a6, sa, va, fillM9)
+				Lens(c, "#2 of ForProduct6[b,a,d,c,f,e]", d6, sd, vd, fillM9)
+				Lens(c, "#3 of ForProduct6[b,a,d,c,f,e]", c6, sc, vc, fillM9)
+				Lens(c, "#4 of ForProduct6[b,a,d,c,f,e]", f6, sf, vf, fillM9)
+				Lens(c, "#5 of ForProduct6[b,a,d,c,f,e]", e6, se, ve, fillM9)
+				g7, h7, i7, a7, b7, c7, d7 := optics.ForSpectrum7[M9, M9g, M9h, M9i, M9a, M9b, M9c, M9d]("g", "H", "I", "A", "bee", "c", "D")
+				Reflector(c, "#0 of ForSpectrum7 by name", g7, sg, vg, fillM9)
+				Reflector(c, "#1 of ForSpectrum7 by name", h7, sh, vh, fillM9)
+				Reflector(c, "#2 of ForSpectrum7 by name", i7, si, vi, fillM9)
+				Reflector(c, "#3 of ForSpectrum7 by name", a7, sa, va, fillM9)
+				Reflector(c, "#4 of ForSpectrum7 by name", b7, sb, vb, fillM9)
+				Reflector(c, "#5 of ForSpectrum7 by name", c7, sc, vc, fillM9)
+				Reflector(c, "#6 of ForSpectrum7 by name", d7, sd, vd, fillM9)
+				h8, g8, f8, e8, d8, c8, b8, a8 := optics.ForProduct8[M9, M9h, M9g, M9f, M9e, M9d, M9c, M9b, M9a]()
+				Lens(c, "#0 of ForProduct8 reversed", h8, sh, vh, fillM9)
+				Lens(c, "#1 of ForProduct8 reversed", g8, sg, vg, fillM9)
+				Lens(c, "#2 of ForProduct8 reversed", f8, sf, vf, fillM9)
+				Lens(c, "#3 of ForProduct8 reversed", e8, se, ve, fillM9)
+				Lens(c, "#4 of ForProduct8 reversed", d8, sd, vd, fillM9)
+				Lens(c, "#5 of ForProduct8 reversed", c8, sc, vc, fillM9)
+				Lens(c, "#6 of ForProduct8 reversed", b8, sb, vb, fillM9)
+				Lens(c, "#7 of ForProduct8 reversed", a8, sa, va, fillM9)
+			})
+		}
+		if c.Is("C02") {
+			MustPanic(c, "too-few-names", "ForProduct9[M9,...] with 8 names", func() {
+				optics.ForProduct9[M9, M9a, M9b, M9c, M9d, M9e, M9f, M9g, M9h, M9i]("A", "bee", "c", "D", "E", "eff", "g", "H")
+			})
+			MustPanic(c, "name-type-mismatch", "ForProduct9[M9,...] with two names swapped (types no longer match positions)", func() {
+				optics.ForProduct9[M9, M9a, M9b, M9c, M9d, M9e, M9f, M9g, M9h, M9i]("A", "bee", "c", "D", "E", "eff", "g", "I", "H")
+			})
+		}
+		if c.Is("C04") {
+			Derive(c, "ForShape9[M9,...]() by type", func() {
+				l := optics.ForShape9[M9, M9a, M9b, M9c, M9d, M9e, M9f, M9g, M9h, M9i]()
+				for k := 0; k < 3; k++ {
+					c.R.Evaluations++
+					subj := newBox(fillM9, k)
+					twin := twinOf(subj)
+					j := (k + 1) % 3
+					ret := l.Put(&subj.v, va[j], vb[j], vc[j], vd[j], ve[j], vf[j], vg[j], vh[j], vi[j])
+					twin.v.A, twin.v.B, twin.v.c, twin.v.D, twin.v.E, twin.v.F, twin.v.g, twin.v.H, twin.v.I = va[j], vb[j], vc[j], vd[j], ve[j], vf[j], vg[j], vh[j], vi[j]
+					if ret != &subj.v {
+						c.Viol("shape-return", "ForShape9[M9].Put did not return the struct pointer")
+					}
+					if d := diff(subj, twin); d != "" {
+						c.Viol("shape-put", "ForShape9[M9].Put differs from nine plain assignments: %s", d)
+					}
+					a, b, cc, d, e, f, g, h, i := l.Get(&subj.v)
+					if !reflect.DeepEqual([]any{a, b, cc, d, e, f, g, h, i}, []any{va[j], vb[j], vc[j], vd[j], ve[j], vf[j], vg[j], vh[j], vi[j]}) {
+						c.Viol("shape-get", "ForShape9[M9].Get = %v", []any{a, b, cc, d, e, f, g, h, i})
+					}
+				}
+			})
+		}
+	}})
+}
